@@ -112,6 +112,7 @@ def check(ctx):
     check_width(ctx)
     check_csv(ctx, produced)
     check_hdf5_results_condition(ctx)
+    check_config_not_edited(ctx)
     from .C10 import check_node_identity
     check_node_identity(ctx, ('utils.output_utils', 'taxonomy.taxonomy_tree'), floor=1)
 
@@ -1281,3 +1282,68 @@ def check_hdf5_results_condition(ctx, rule='R-AGREE/hdf5-results-condition'):
                    'no step of the mapping stores that key')
                + ': the HDF5 output of a successful run carries no results '
                'while the JSON output does')
+
+
+def check_config_not_edited(ctx, rule='R-SAMEVAL/config-as-recorded'):
+    """the configuration written into every output is a copy taken when
+    run_mapping starts; the run itself reads the live `config`.  For the
+    record to describe the run (and for the outputs, whose layout follows
+    settings such as the iteration count, to agree with it), the live
+    configuration must not be edited afterwards: in run_mapping and
+    _run_mapping nothing is stored into, deleted from or popped off
+    `config` or a local that is one of its sub-dictionaries."""
+    db = ctx.db
+    from ..rules.escape import MUTATORS
+    n = 0
+    for q in ('cli.from_specified_markers:run_mapping',
+              'cli.from_specified_markers:_run_mapping'):
+        fi = db.fn(q)
+        ctx.touch(fi)
+        if 'config' not in fi.params:
+            raise AnalysisError(f'{q}: no `config` parameter')
+        aliases = {'config'}
+        grew = True
+        while grew:
+            grew = False
+            for st in ast.walk(fi.node):
+                if isinstance(st, ast.Assign) and len(st.targets) == 1 \
+                        and isinstance(st.targets[0], ast.Name) \
+                        and st.targets[0].id not in aliases:
+                    v = st.value
+                    while isinstance(v, ast.Subscript):
+                        v = v.value
+                    if isinstance(v, ast.Name) and v.id in aliases \
+                            and isinstance(st.value, (ast.Subscript,
+                                                      ast.Name)):
+                        aliases.add(st.targets[0].id)
+                        grew = True
+
+        def root(e):
+            while isinstance(e, ast.Subscript):
+                e = e.value
+            return e.id if isinstance(e, ast.Name) else None
+        edits = []
+        for st in ast.walk(fi.node):
+            tgs = []
+            if isinstance(st, ast.Assign):
+                tgs = st.targets
+            elif isinstance(st, ast.AugAssign):
+                tgs = [st.target]
+            elif isinstance(st, ast.Delete):
+                tgs = st.targets
+            for tg in tgs:
+                if isinstance(tg, ast.Subscript) and root(tg) in aliases:
+                    edits.append(st)
+            if isinstance(st, ast.Call) and isinstance(
+                    st.func, ast.Attribute) and st.func.attr in MUTATORS \
+                    and root(st.func.value) in aliases:
+                edits.append(st)
+        n += 1
+        ok = not edits
+        ctx.ob(rule, f'{fi.qual}:config', fi.loc(edits[0]) if edits
+               else fi.loc(), ok,
+               f'`config` ({len(aliases)} name(s)) is only read' if ok else
+               f'`{unparse(edits[0])[:70]}` edits the live configuration '
+               'after its copy for the record was taken: the run uses a '
+               'setting the recorded configuration (and the outputs whose '
+               'layout follows it) do not show')
